@@ -414,11 +414,144 @@ def mon_c02(tr: Trace) -> list[Violation]:
     return out
 
 
+# ------------------------------------------------------------------ C05 / C06
+
+
+def _budget(pol: dict | None) -> int | None:
+    if pol is None:
+        return 1
+    if pol["kind"] in ("attempts", "chain", "legacy"):
+        return max(pol["n"], 1)
+    return None
+
+
+def _lineages(tr: Trace) -> dict[tuple, list]:
+    """executions per (step, input uid): list of (retry_number, enter_time, exit_time, exit_status, retry_info)"""
+    runs: dict[tuple, list] = {}
+    open_: dict[tuple, list] = {}
+    for rec in tr.steps:
+        kind, step, uid, rn, vt, info = rec
+        key = (step, repr(uid))
+        if kind == "enter":
+            open_.setdefault(key, []).append([rn, vt, None, None, info.get("retry_info")])
+        elif kind == "exit":
+            lst = open_.get(key)
+            if lst:
+                ent = lst.pop(0)
+                ent[2], ent[3] = vt, info.get("status")
+                runs.setdefault(key, []).append(ent)
+    return runs
+
+
+def mon_c05(tr: Trace) -> list[Violation]:
+    out: list[Violation] = []
+    sdefs = {s["name"]: s for s in tr.spec["steps"]}
+    lin = _lineages(tr)
+    failed_pubs = [(e, i) for i, (e, *_r) in enumerate(tr.stream) if isinstance(e, WorkflowFailedEvent)]
+    for (step, uid), execs in lin.items():
+        sd = sdefs.get(step)
+        if sd is None or sd.get("sync"):
+            continue
+        ops = [a[0] for a in sd["script"]]
+        if any(o in ops for o in ("collect", "wait")):
+            continue  # re-runs of collect/wait replays are not retries
+        # retry numbers are 0,1,2,... and each retry sees the previous attempt's exception
+        rns = [e[0] for e in execs]
+        if rns != list(range(len(rns))):
+            out.append(Violation("C05/retry_numbers", f"{step} uid={uid}: retry_info().retry_number sequence {rns}", _replay(tr)))
+            continue
+        for i, e in enumerate(execs):
+            ri = e[4] or {}
+            if i == 0 and (ri.get("last_exc") is not None):
+                out.append(Violation("C05/first_attempt_has_exception", f"{step}: first attempt reports last_exception={ri.get('last_exc')}", _replay(tr)))
+            if i > 0:
+                prev = execs[i - 1][3] or ""
+                if prev.startswith("raise:Boom"):
+                    fa = [a for a in sd["script"] if a[0] in ("fail_until", "fail_always", "fail_on_k")]
+                    want = f"e{fa[0][2] if fa[0][0] != 'fail_always' else fa[0][1]}" if fa else None
+                    if want is not None and ri.get("last_exc") != want:
+                        out.append(Violation("C05/retry_info_exception", f"{step}: retry {i} reports last_exception={ri.get('last_exc')}, previous attempt raised {want}", _replay(tr)))
+        # attempt budget
+        budget = _budget(sd.get("retry"))
+        fa = [a for a in sd["script"] if a[0] in ("fail_until", "fail_always")]
+        all_failed = all((e[3] or "").startswith("raise:Boom") for e in execs)
+        done = all(e[2] is not None for e in execs)
+        if budget is not None and fa and done and ops.count("gate") == 0 and "sleep" not in ops:
+            ret_bad = any(a[0] == "ret" and a[1] == "bad" for a in sd["script"])
+            if fa[0][0] == "fail_always" or ret_bad:
+                expect = budget
+            else:
+                expect = fa[0][1] + 1 if fa[0][1] < budget else budget
+            run_over = tr.outcome[0] in ("cancelled", "timeout") or tr.outcome[0] == "error" and len(execs) < expect
+            if len(execs) > expect or (len(execs) < expect and not run_over and tr.outcome[0] not in ("result", "error")):
+                out.append(Violation("C05/attempt_budget", f"{step} uid={uid}: executed {len(execs)} times, policy {sd.get('retry')} allows exactly {expect}", _replay(tr)))
+        # reported attempts / elapsed in WorkflowFailedEvent
+        if all_failed and done and failed_pubs and failed_pubs[0][0].step_name == step and sum(1 for k2 in lin if k2[0] == step) == 1:
+            fe = failed_pubs[0][0]
+            # the lineage that failed the run is the one whose last failure is the latest
+            last_fail = max((ex[-1][2], k) for k, ex in lin.items() if k[0] == step and all((x[3] or "").startswith("raise:") for x in ex))
+            if last_fail[1] == (step, uid):
+                if fe.attempts != len(execs):
+                    out.append(Violation("C05/reported_attempts", f"WorkflowFailedEvent.attempts={fe.attempts} but {step} was executed {len(execs)} times", _replay(tr)))
+                real = execs[-1][2] - execs[0][1]
+                if abs(fe.elapsed_seconds - real) > 1e-6:
+                    out.append(Violation("C05/reported_elapsed", f"WorkflowFailedEvent.elapsed_seconds={fe.elapsed_seconds} but {real} virtual seconds elapsed between the first attempt and the last failure", _replay(tr)))
+        # stop_after_delay: retried exactly while really-elapsed < d
+        pol = sd.get("retry")
+        single = sum(1 for k2 in lin if k2[0] == step) == 1
+        if pol and pol["kind"] == "delay" and fa and fa[0][0] == "fail_always" and done and ops.count("gate") == 0 and single:
+            d = pol["d"]
+            for i, e in enumerate(execs):
+                elapsed = e[2] - execs[0][1]
+                is_last = i == len(execs) - 1
+                gave_up = any(isinstance(c.tick, T.TickStepResult) and c.tick.step_name == step and c.error is None and
+                              any(isinstance(r, R.StepWorkerFailed) for r in c.tick.result) and
+                              not any(isinstance(x, C.CommandQueueEvent) and x.attempts for x in c.cmds)
+                              for c in _runner_calls(tr))
+                if elapsed < d and is_last and gave_up:
+                    out.append(Violation("C05/stop_after_delay_early", f"{step}: gave up after {elapsed}s < stop_after_delay({d})", _replay(tr)))
+                if elapsed >= d and not is_last:
+                    out.append(Violation("C05/stop_after_delay_late", f"{step}: retried although {elapsed}s >= stop_after_delay({d}) had elapsed", _replay(tr)))
+    return out
+
+
+def mon_c06(tr: Trace) -> list[Violation]:
+    out: list[Violation] = []
+    sdefs = {s["name"]: s for s in tr.spec["steps"]}
+    for (step, uid), execs in _lineages(tr).items():
+        sd = sdefs.get(step)
+        pol = (sd or {}).get("retry")
+        if sd is None or pol is None or pol["kind"] not in ("attempts", "chain", "legacy", "delay"):
+            continue
+        ops = [a[0] for a in sd["script"]]
+        if any(o in ops for o in ("collect", "wait")):
+            continue
+        for k in range(1, len(execs)):
+            prev_fail, start = execs[k - 1][2], execs[k][1]
+            if prev_fail is None:
+                continue
+            if pol["kind"] == "chain":
+                ws = pol["waits"]
+                documented = ws[min(k - 1, len(ws) - 1)]
+                code_index = ws[min(k, len(ws) - 1)]
+            else:
+                documented = code_index = pol.get("wait", 0)
+            gap = start - prev_fail
+            if gap + 1e-9 < documented:
+                if abs(gap - code_index) < 1e-9 or gap >= code_index:
+                    out.append(Violation("C06/retry_delay_index_off_by_one", f"{step}: retry {k} started {gap}s after the failure; the strategy documents {documented}s for this retry (the engine used the value for index {k})", _replay(tr)))
+                else:
+                    out.append(Violation("C06/retry_too_early", f"{step}: retry {k} started {gap}s after the failure, before the {documented}s delay (policy {pol})", _replay(tr)))
+    return out
+
+
 MONITORS: dict[str, Callable[[Trace], list[Violation]]] = {
     "C01": mon_c01,
     "C02": mon_c02,
     "C03": mon_c03,
     "C04": mon_c04,
+    "C05": mon_c05,
+    "C06": mon_c06,
     "C11": mon_c11,
     "C35": mon_c35,
 }
